@@ -97,6 +97,7 @@ impl Monitor for C16 {
 
 pub fn profile() -> Profile {
     let mut p = Profile::general();
+    p.past_legacy_half = true;
     p.kind_w = [16, 8, 18, 24, 22, 2, 10, 0, 0];
     p.p_mut = 15;
     p.p_odd_spelling = 30;
@@ -120,8 +121,14 @@ pub fn arb_liquidity_plan(p: &Profile) -> impl proptest::strategy::Strategy<Valu
         .prop_map(move |(cfg, deposits, rounds)| {
             let mut steps = vec![];
             let mut first = vec![];
+            // two thirds of the plans keep to two pools (the first and the last candidate), so that one block holds
+            // several requests per pool and requests on different pools interleave
+            let focus = cfg.val % 3 != 0;
             for mut t in deposits {
                 t.kind = kind_byte(&p2, 3, t.kind);
+                if focus {
+                    t.pool = if t.pool % 2 == 0 { 0 } else { 65535 };
+                }
                 first.push(t);
             }
             steps.push(Step::Batch(first, 0));
@@ -136,6 +143,9 @@ pub fn arb_liquidity_plan(p: &Profile) -> impl proptest::strategy::Strategy<Valu
                         _ => 0,     // ordinary (splits and merges liquidity-token coins among others)
                     };
                     t.kind = kind_byte(&p2, k, t.kind);
+                    if focus && k == 3 {
+                        t.pool = if t.pool % 2 == 0 { 0 } else { 65535 };
+                    }
                     b.push(t);
                 }
                 steps.push(Step::Batch(b, order));
@@ -337,17 +347,20 @@ pub fn run(ctx: &Ctx) -> (Outcome, String, Option<bool>) {
     }
     let out = super::hist::run_histories(ctx, "liquidity-histories", p, ctx.scale(900, 9000), C16::default);
     let mut out = out;
-    let p2 = profile();
+    let p2 = profile2();
     let prof2 = p2.clone();
     out.absorb(crate::runner::run_sharded(
         ctx,
         "liquidity-lifecycles",
         ctx.scale(500, 5000),
-        move || arb_liquidity_plan(&prof2),
+        move || {
+            use proptest::strategy::Strategy;
+            arb_liquidity_plan(&prof2).prop_map(|p| super::hist::Phase2 { phase2: p })
+        },
         |plan, st, shard| {
             st.eval();
             st.class("lifecycle-history");
-            crate::plan::run_plan(plan, &p2, &mut C16::default(), st, shard)
+            crate::plan::run_plan(&plan.phase2, &p2, &mut C16::default(), st, shard)
         },
     ));
     out.absorb(crate::runner::run_sharded(ctx, "extreme-deposits", ctx.scale(1500, 20000), arb_extreme, |c, st, shard| {
@@ -366,5 +379,12 @@ pub fn replay(case: &serde_json::Value) -> Check {
         let c: ExtremeCase = serde_json::from_value(case.clone()).map_err(|e| crate::evidence::Violation::new("replay-format", e.to_string()))?;
         return check_extreme(&c, &mut Stats::default(), 200);
     }
-    super::hist::replay_history(case, &profile(), C16::default())
+    super::hist::replay_two_phase(case, &profile(), &profile2(), C16::default())
+}
+
+/// The lifecycle phase: more small MEL coins, so that many withdrawals (each burns one as its fee) can be built.
+pub fn profile2() -> Profile {
+    let mut p = profile();
+    p.nuggets = 20;
+    p
 }
